@@ -125,6 +125,49 @@ def frontend_graphs(level: int) -> List[Graph]:
     return _D_CACHE[key]
 
 
+def bytecode_graphs(tier: str) -> Dict[str, List[Graph]]:
+    """Closed CFGs that the BYTECODE front end produces: for the skeleton programs and for the stdlib corpus."""
+    key = f"BC{tier}"
+    if key in _D_CACHE:
+        return _D_CACHE[key]  # type: ignore
+    import importlib
+    from numba_scfg.core.datastructures.byte_flow import ByteFlow
+    from .bytecode_ref import in_domain
+    from .progs import skeleton_sources
+    from .props.c09 import CORPUS_QUICK, CORPUS_THOROUGH, code_objects
+    out: Dict[str, List[Graph]] = {"BC(S)": [], "BC(corpus)": []}
+    seen = set()
+
+    def add(code, label):
+        if in_domain(code) is not None:
+            return
+        try:
+            scfg = ByteFlow.from_bytecode(code).scfg
+        except Exception:  # noqa: BLE001  (C09's business)
+            return
+        g = {n: tuple(b._jump_targets) for n, b in scfg.graph.items()}
+        if any(t not in g for r in g.values() for t in r):
+            return
+        c = canonical(g)
+        if c is None or c in seen or not is_closed(c):
+            return
+        seen.add(c)
+        out[label].append(c)
+    for label, src in skeleton_sources(2 if tier == "quick" else 3, "marked", loop_else_upto=2):
+        ns: Dict[str, Any] = {}
+        exec(compile(src, "<bc>", "exec"), ns)
+        add(ns["f"].__code__, "BC(S)")
+    for modname in (CORPUS_QUICK if tier == "quick" else sorted(set(CORPUS_THOROUGH))):
+        try:
+            mod = importlib.import_module(modname)
+        except BaseException:  # noqa: BLE001
+            continue
+        for _, code in code_objects(mod):
+            add(code, "BC(corpus)")
+    _D_CACHE[key] = out  # type: ignore
+    return out
+
+
 def graph_spec(tier: str, light: bool = False) -> Dict[str, Any]:
     """Families for the graph-level properties (DESIGN section 3)."""
     lists: Dict[str, List[Graph]] = {}
@@ -138,6 +181,8 @@ def graph_spec(tier: str, light: bool = False) -> Dict[str, Any]:
             s2 = frontend_graphs(2)
             lists["D(S1,3)"] = deviation_closure(s1, 2 if light else 3)
             lists["D(S2,1)"] = deviation_closure(s2, 0 if light else 1)
+        if not light:
+            lists.update(bytecode_graphs(tier))
     except ImportError:
         pass
     return {"E": (5 if tier == "quick" else 6) - (1 if light and tier != "quick" else 0), "FIG": True, "LISTS": lists}
